@@ -68,7 +68,7 @@ def _case(rng, idx, params):
     # the library), dict / list encodings of appended chunks, and lifespan trimming
     if rng.random() < 0.4:
         scn["subsec"] = [rng.choice([0, 1, 250000, 999999]) for _ in range(7)]
-    scn["enc"] = rng.choice(["candle", "candle", "dict", "list", "dict_iso", "dict_iso", "pandas"])
+    scn["enc"] = rng.choice(["candle", "dict", "dict", "list", "list", "dict_iso", "dict_iso", "pandas"])
     if scn["enc"] == "pandas" and not _have_pandas():
         scn["enc"] = "candle"
     if scn["enc"] in ("dict_iso", "pandas") and scn.get("chunks") and scn.get("init", 0) > 1 and rng.random() < 0.5:
@@ -106,7 +106,7 @@ def _case(rng, idx, params):
 
 def oracle(ctx):
     zones = ZONES_QUICK if ctx["tier"] == "quick" else ZONES_ALL
-    n = (120 if ctx["tier"] == "quick" else 800) * ctx["boost"]
+    n = (180 if ctx["tier"] == "quick" else 1000) * ctx["boost"]
     rs = [cm.run_cases(_case, ctx["seed"], f"{ID}-{z}", n, {"size": 50, "tz": z}) for z in zones]
     return cm.merge_results(*rs)
 
